@@ -580,6 +580,40 @@ func implicitByType(doc J, t resolved.IsType) J {
 	return doc
 }
 
+// mixedByType: like implicitByType, but inside every set the members alternate between the implicit and the explicit
+// spelling (one document may mix them), starting with the implicit one when first is true
+func mixedByType(doc J, t resolved.IsType, first bool) J {
+	switch t := t.(type) {
+	case resolved.SetType:
+		if o, ok := doc.(Obj); ok {
+			if items, ok := o["a"].([]any); ok {
+				out := []any{}
+				for i, it := range items {
+					if (i%2 == 0) == first {
+						out = append(out, implicitByType(it, t.Element))
+					} else {
+						out = append(out, mixedByType(it, t.Element, first))
+					}
+				}
+				return Obj{"a": out}
+			}
+		}
+	case resolved.RecordType:
+		if ms, ok := tMembers(doc); ok {
+			out := []any{}
+			for _, m := range ms {
+				k, v := tKey(m), m.(Obj)["v"]
+				if a, ok := t[types.String(k)]; ok {
+					v = mixedByType(v, a.Type, first)
+				}
+				out = append(out, tMember(k, v))
+			}
+			return Obj{"o": out}
+		}
+	}
+	return doc
+}
+
 // op "vjsonschema": {datum: entity (conforming to coerceSchema)} -> spell: [{name, doc, backs: [Entity.UnmarshalJSONWithSchema,
 // EntityMap.UnmarshalJSONWithSchema]}] for the encoder's own document and for the implicit spelling
 func opVJSONSchema(c Obj) J {
@@ -620,6 +654,32 @@ func opVJSONSchema(c Obj) J {
 			name string
 			doc  J
 		}{"implicit", Obj{"o": out}})
+		for _, first := range []bool{true, false} {
+			mout := []any{}
+			for _, m := range ms {
+				k, v := tKey(m), m.(Obj)["v"]
+				switch {
+				case k == "attrs":
+					v = mixedByType(v, se.Shape, first)
+				case k == "tags" && se.Tags != nil:
+					tms, _ := tMembers(v)
+					tout := []any{}
+					for _, tm := range tms {
+						tout = append(tout, tMember(tKey(tm), mixedByType(tm.(Obj)["v"], se.Tags, first)))
+					}
+					v = Obj{"o": tout}
+				}
+				mout = append(mout, tMember(k, v))
+			}
+			name := "mixed (implicit first)"
+			if !first {
+				name = "mixed (explicit first)"
+			}
+			spellings = append(spellings, struct {
+				name string
+				doc  J
+			}{name, Obj{"o": mout}})
+		}
 	}
 	spell := []any{}
 	for _, sp := range spellings {
@@ -672,7 +732,7 @@ func driveVJSONSchema(seed int64, n int, params map[string]string) []Obj {
 	opt := func() bool { return g.r.Intn(2) == 0 }
 	set := func(f func() types.Value) types.Value {
 		var vs []types.Value
-		for i := g.r.Intn(3); i > 0; i-- {
+		for i := g.r.Intn(5); i > 0; i-- {
 			vs = append(vs, f())
 		}
 		return types.NewSet(vs...)
